@@ -195,7 +195,10 @@ def run_family(prog, fam_name, setup, post, contracts=None, force_contract=(), b
         return fam
     fam.paths = len(results)
     orphans = stats.pop("orphans", [])
-    if not results and not orphans:
+    unsup = stats.pop("unsupported", [])
+    if unsup:
+        fam.error = f"unsupported: {unsup[0]}" + (f" (and {len(unsup) - 1} more path(s))" if len(unsup) > 1 else "")
+    if not results and not orphans and not unsup:
         # every path was assumed away: the pre-state could not even be built (e.g. the real
         # constructor raised for every well-formed argument) - never a silent pass
         fam.error = "unsupported: vacuous family, every path was assumed away (pre-state could not be built)"
